@@ -1,6 +1,7 @@
 package simrt
 
 import (
+	"io"
 	"context"
 	"errors"
 	"fmt"
@@ -88,7 +89,12 @@ func (a *App) behave(ctx context.Context, call *CallState, rpc string, req proto
 	case "err-plain":
 		return nil, errors.New(b.Text)
 	case "err-sebuf":
-		return nil, &sebufhttp.Error{Message: b.Text}
+		e := &sebufhttp.Error{Message: b.Text}
+		if a.k.Plan.SharedMsgs {
+			// a sentinel error value returned by every failing call with this text
+			e = a.k.sharedMsg("err|"+rpc, []byte(b.Text), e).(*sebufhttp.Error)
+		}
+		return nil, e
 	case "err-validation":
 		ve := &sebufhttp.ValidationError{}
 		for _, f := range b.Fields {
@@ -199,7 +205,14 @@ func (k *Kernel) hook() ErrorHook {
 			k.Stats.Probe("hook_called_writeheader")
 		}
 		if hp.WriteBody != "" {
-			_, _ = w.Write([]byte(hp.WriteBody))
+			switch hp.WriteVia {
+			case "string":
+				_, _ = io.WriteString(w, hp.WriteBody)
+			case "copy":
+				_, _ = io.Copy(w, strings.NewReader(hp.WriteBody))
+			default:
+				_, _ = w.Write([]byte(hp.WriteBody))
+			}
 			k.Stats.Probe("hook_wrote_body")
 		}
 		var out proto.Message
